@@ -104,17 +104,17 @@ Print Assumptions C01_reduce_unfold.
 Theorem C01_foreach_unfold : forall bs n rho src pat start upd ext v ps k,
   eval_t bs (S n) rho (Term (TForeach src pat start upd ext) []) v ps k =
   eval_q bs n rho start v ps (fun s0 ps0 =>
-    c <- new_cell s0 ;;
-    eval_q bs n rho src v ps0 (fun item ps1 =>
-      ev_bindpat (evals_n bs n) rho pat item ps1 (fun rho' ps2 =>
-        cur <- get_cell c ;;
-        eval_q bs n rho' upd cur ps2 (fun u ps3 =>
-          set_cell c u ;;
-          match ext with
-          | None => k u ps3
-          | Some e => eval_q bs n rho' e u ps3 k
-          end))) ;;
-    free_cell c).
+    with_cell (scoped_ids ps0) s0
+      (fun c => eval_q bs n rho src v ps0 (fun item ps1 =>
+         ev_bindpat (evals_n bs n) rho pat item ps1 (fun rho' ps2 =>
+           cur <- get_cell c ;;
+           eval_q bs n rho' upd cur ps2 (fun u ps3 =>
+             set_cell c u ;;
+             match ext with
+             | None => k u ps3
+             | Some e => eval_q bs n rho' e u ps3 k
+             end))))
+      (fun _ => ret tt)).
 Proof. exact foreach_unfold. Qed.
 Print Assumptions C01_foreach_unfold.
 
